@@ -10,9 +10,10 @@
 -/
 import GM.Proof.Inlines
 import GM.Proof.InlinesLoopTotal
+import GM.Proof.InlinesLink
 
 namespace GM.Props.Inlines
-open GM GM.Text GM.Spec GM.Inl GM.Proof.Inlines GM.Proof.InlinesReader GM.Proof.InlinesTotal
+open GM GM.Text GM.Spec GM.Inl GM.Proof.Inlines GM.Proof.InlinesReader GM.Proof.InlinesTotal GM.Proof.InlinesLink
 
 /-- `no_delimiter_survives` (C05(b), "no leftover delimiter or bracket bookkeeping nodes"). Whatever the source,
     lines, references: after ProcessDelimiters(nil, pc) and CloseBlock no Delimiter node and no LinkLabelState
@@ -88,8 +89,8 @@ theorem parseBlock_fuel_suffices_nobracket (env : Env) (src : Bytes) (segs : Lis
     cursor and the context invariant `X`, it returns; the reader still stands for a cursor that did not move back;
     a returned node means at least one byte was consumed and its segments lie between the old and the new
     offset; `X` holds again). `X` is any invariant of (children, next id, linkBottom stack) that the loop's own
-    steps preserve and that implies `Length ≥ 1` for open delimiters. What is NOT proved is this contract for
-    `linkParser.Parse` on sources with brackets (notes/status_inlines.md). -/
+    steps preserve and that implies `Length ≥ 1` for open delimiters. The contract itself is
+    `link_parser_keeps_contract` below; together they give `parseBlock_total`. -/
 theorem parseBlock_fuel_suffices_of_link_contract (X : Ctx) (hbase : X.LK [] 0 [])
     (hpos : ∀ k n b, X.LK k n b → posL k) (env : Env) (src : Bytes) (segs : List Segment) (h : WF0 src segs)
     (hlink : PContract X src segs (trigOf .link) (Ip.link.parse env)) :
@@ -112,14 +113,112 @@ theorem retry_loop_terminates (X : Ctx) (env : Env) (src : Bytes) (segs : List S
     the still open delimiters and labels), read in tree order, satisfy `0 ≤ s₁.start ≤ s₁.stop ≤ s₂.start ≤ … ≤
     len(source)`: each lies inside the source, none is inverted, each starts at or after the end of the one
     before. (`segsOfL` = the segments in tree order; `chain lo hi` = that inequality chain.)
-    Not proved: that ProcessDelimiters + CloseBlock keep the chain (they only shrink a delimiter's segment from
-    its end, merge adjacent texts, drop used-up delimiters and wrap runs of siblings; it needs the extra
-    delimiter invariant `Segment = [Start, Start+Length)`), and the same with brackets (link contract). -/
+    (Superseded by `text_segments_in_range_and_ordered`, which speaks about the tree parseBlock RETURNS, for
+    every source.) -/
 theorem segments_in_range_and_ordered_at_loop_end (env : Env) (src : Bytes) (segs : List Segment) (h : WF0 src segs)
     (hnb : ∀ x ∈ src, x ≠ 91 ∧ x ≠ 93) (r0 : BlockReader) (st' : St) (h0 : BlockReader.new src segs = .ok r0)
     (hl : lineLoop env (blockFuel src segs) false { rd := r0 } = .ok st') :
     chain 0 src.length (segsOfL st'.kids) :=
   lineLoop_segments Ctx.trivial True.intro h.1 h.2 env (all_contracts_nobracket Ctx.trivial h.1 h.2 env hnb) h0 hl
+
+/-! ### every source: the link parser's contract, totality, segment order (third round)
+
+`linkCtx lo` (`lo` = the start of the block's first line) is the context invariant of the link parser
+(`GM.Proof.InlinesLink.LK`): every open delimiter has `Length ≥ 1` and `Segment = [Start, Start + Length)`; the ids
+of the top-level delimiters increase strictly and lie below the id counter; LinkLabelState nodes occur only among
+the children of `parent`, never below an Emphasis / Link / Image; a label's segment starts at or behind `lo`; the
+`linkBottom` stack has exactly one entry per label, the entry of a label being the last delimiter in front of it,
+or the typed nil `*Delimiter` when there is none. -/
+
+/-- `link_parser_keeps_contract` (C01, `linkParser.Parse`). For EVERY source, line list (`WF0`), reference map:
+    consulted by the loop at a `!`, `[` or `]` in a state that satisfies the loop invariant (reader stands for a
+    cursor, recorded segments in order up to it, `linkCtx`), `linkParser.Parse` returns — no Go panic in
+    `[`/`![` opener, `]` closer, inline `(dest "title")` (SkipSpaces, parseLinkDestination, parseLinkTitle with
+    FindClosure and multi-line `Value`), full / collapsed / shortcut reference (FindClosure, `Value` of the label
+    text across lines), every failure path; none of SkipSpaces / FindClosure runs out of fuel; none of the three
+    modelling guards of `processLinkLabel` fires (the label is still a child of `parent` after
+    ProcessDelimiters(bottom), no open label and no listed delimiter lies behind it: ProcessDelimiters(bottom)
+    provably leaves everything up to and including the label alone) — the reader stands for a cursor that did
+    not move back, a returned node consumed at least one byte, the recorded segments are still in order and
+    `linkCtx` holds again. -/
+theorem link_parser_keeps_contract (env : Env) (src : Bytes) (segs : List Segment) (h : WF0 src segs) :
+    PContract (linkCtx (BCur.segOf segs 0).start) src segs (trigOf .link) (Ip.link.parse env) :=
+  link_contract h.1 h.2 env
+
+/-- `processDelimiters_prefix_local`: ProcessDelimiters(bottom) with a non-nil `bottom` cannot touch a prefix `P`
+    of the children whose last node is neither a Text nor a delimiter (an open link label) and in which every
+    right-to-left walk stops at `bottom` before meeting another delimiter (`bottom` is the last delimiter of `P`,
+    or `P` has none and `bottom` is the typed nil) — provided no delimiter id occurs on both sides:
+    the result is `P` followed by what ProcessDelimiters(bottom) makes of the rest alone. -/
+theorem processDelimiters_prefix_local (b : Bottom) (hb : b ≠ .nil) (P y : List Node)
+    (hc : GM.Proof.InlinesDelims.Closed b P.reverse)
+    (hd : ∀ id d d', Node.delim id d ∈ P → Node.delim id d' ∈ y → False) :
+    processDelimiters b (P ++ y) = (processDelimiters b y).map (P ++ ·) :=
+  GM.Proof.InlinesDelims.processDelimiters_prefix hb hc y hd
+
+/-- `parseBlock_total` (C01, inline phase, unconditional). For EVERY source, every well-formed padding-free line
+    list, every reference map and every assignment of Unicode classes the inline phase of a block returns an
+    inline tree: no Go panic (index, slice, nil, type assertion, `Segment.Between`, `make` with a negative
+    capacity in `BlockReader.Value`), every loop ends (`retry:` loop, code-span / raw-HTML line loops, the rune
+    stream of `Reader.Match`, SkipSpaces, FindClosure, the closer loop of ProcessDelimiters), and no modelling
+    invariant (`pre`) is broken — the model's answers `loop` and `pre` are unreachable. -/
+theorem parseBlock_total (env : Env) (src : Bytes) (segs : List Segment) (h : WF0 src segs) :
+    ∃ kids, parseBlock env src segs = .ok kids :=
+  GM.Proof.InlinesLink.parseBlock_total h.1 h.2 env
+
+/-- `text_segments_in_range_and_ordered` (C05(c) for inline content). For EVERY source and well-formed
+    padding-free line list: the segments recorded in the inline tree that parseBlock returns — Text nodes (also
+    those made from cleared delimiters and unmatched brackets), the raw Text of code spans, autolink values,
+    raw-HTML segments — read in tree order (through Emphasis, Link, Image, CodeSpan) satisfy
+    `0 ≤ s₁.start ≤ s₁.stop ≤ s₂.start ≤ s₂.stop ≤ … ≤ len(source)`: each lies inside the source, none is
+    inverted, each starts at or behind the end of the one before (`segsOfL` = the segments in tree order,
+    `chain lo hi` = that chain of inequalities). -/
+theorem text_segments_in_range_and_ordered (env : Env) (src : Bytes) (segs : List Segment) (h : WF0 src segs)
+    (kids : List Node) (hk : parseBlock env src segs = .ok kids) : chain 0 src.length (segsOfL kids) :=
+  parseBlock_segments h.1 h.2 env hk
+
+/-- `processDelimiters_keeps_segment_order`: for every `bottom`, on children whose delimiters have `Length ≥ 1`
+    and `Segment = [Start, Start + Length)`, ProcessDelimiters keeps the recorded segments in range and in order
+    (ConsumeCharacters shrinks a delimiter from its end, a used-up delimiter is dropped, a cleared one becomes a
+    Text of its segment or extends the adjacent Text in front, matched runs are wrapped). -/
+theorem processDelimiters_keeps_segment_order (b : Bottom) (lo hi : Int) (kids res : List Node)
+    (h : processDelimiters b kids = .ok res) (hp : posL kids)
+    (hD : ∀ id d, Node.delim id d ∈ kids → d.seg.stop = d.seg.start + d.length)
+    (hc : chain lo hi (segsOfL kids)) : chain lo hi (segsOfL res) :=
+  GM.Proof.InlinesDelims.processDelimiters_chain h hp (fun _ hn id d e => hD id d (e ▸ hn)) hc
+
+/-- `blockReader_helpers_fuel_suffices` (C01 / C18, block reader): for every well-formed line list — ANY line
+    paddings — and every block reader state `r` that stands for a well-formed cursor `c` (`BAbs`, the refinement
+    relation of C18), `SkipSpaces` and `FindClosure` (any opener / closer / options) are defined whenever their
+    fuel exceeds the number of bytes of the line views in front of the cursor: neither loop runs out of fuel, no
+    interface call they make panics, and the reader afterwards again stands for a cursor. (The block-reader
+    counterpart of C18's `reader_helpers_defined`.) -/
+theorem blockReader_helpers_fuel_suffices (src : Bytes) (segs : List Segment) (hw : WFSegs src segs)
+    (r : BlockReader) (c : BCur) (h : GM.Proof.Reader.BAbs src segs r c) (fuel : Nat)
+    (hf : (BCur.remaining segs c).toNat < fuel) :
+    (∃ x r' c', skipSpaces blockOps fuel 0 r = .ok (x, r') ∧ GM.Proof.Reader.BAbs src segs r' c') ∧
+    (∀ o cl opts, ∃ x r' c', findClosure blockOps fuel o cl opts r = .ok (x, r') ∧
+      GM.Proof.Reader.BAbs src segs r' c') :=
+  ⟨GM.Proof.BlockReaderFuel.blockReader_skipSpaces_defined (GM.Proof.Reader.segFacts hw) h fuel hf,
+   fun o cl opts => GM.Proof.BlockReaderFuel.blockReader_findClosure_defined (GM.Proof.Reader.segFacts hw) h o cl opts
+     fuel hf⟩
+
+/-- the hypotheses are satisfiable (test on a literal): "[a](b)" as one line has `WF0` lines -/
+example : WF0 [91, 97, 93, 40, 98, 41] [{ start := 0, stop := 6 }] := by
+  refine ⟨⟨by simp, ?_⟩, ?_⟩
+  · simp [WFSegsFrom]
+  · intro s hs; simp at hs; subst hs; rfl
+
+/-- "[a](b)": the phase finishes (test on a literal) -/
+example : (parseBlock {} [91, 97, 93, 40, 98, 41] [{ start := 0, stop := 6 }]).toBool = true := by decide +kernel
+
+/-- the base case of the context invariant: an empty child list with an empty `linkBottom` stack -/
+example : (linkCtx 0).LK [] 0 [] := LK_base 0
+
+/-- the hypothesis `Closed` of `processDelimiters_prefix_local` is satisfiable (test on a literal): the prefix `[`
+    (one open label, no delimiter in front of it) with the typed-nil bottom -/
+example : GM.Proof.InlinesDelims.Closed .tnil [Node.label 0 { start := 0, stop := 1 } false].reverse :=
+  ⟨⟨_, [], rfl, rfl, rfl⟩, trivial⟩
 
 /-- the hypotheses are satisfiable (test on a literal): "a*b*" as one line -/
 example : WF0 [97, 42, 98, 42] [{ start := 0, stop := 4 }] := by
